@@ -28,6 +28,12 @@ class Check(PropertyCheck):
     def scenario(self, rng: random.Random, tier) -> Scenario:
         family, jobs = gen.gen_instance(rng, max_jobs=5 if tier == "quick" else 6)
         f = gen.gen_filter(rng)
+        if rng.random() < 0.08 and not gen.has_zero(jobs):
+            # times far beyond 2**63 under the dominated-operations filter: the clock is integer arithmetic
+            big = 2 ** rng.choice([53, 63, 64, 70])
+            jobs = [[(ms, d + big) for ms, d in job] for job in jobs]
+            family += "+huge"
+            f = rng.choice([["dom"], ["dom", "nidle"], ["nio", "dom"]])
         if gen.has_zero(jobs):
             f = None
         lines = ["new", instance_line(jobs), gen.filter_line(f), "q current_time", "q completed"]
